@@ -16,6 +16,28 @@ TEXT = {
  "C06": ("For every DB method, with a sink whose every Write/Sync may fail: the audit record is written and synced (with the right fields) before any memory effect, save or disclosure; fail-closed; unchanged polls silent; WriteEntries error propagation.",
          "Non-interleaving of concurrent records rests on O_APPEND + one write(2) per Encode and is outside; only the open flags are checked (C05)."),
  "C09": ("DB.GetConditional from an arbitrary valid state and any V: not-changed iff active == V, else the active number with its bytes; absent -> not found.", "HTTP/client legs are added with C08's harnesses."),
+ "C07": ("acl.Secret.Match executed symbolically with symbolic pattern pieces and name; the regexp source it builds is parsed by the real regexp/syntax and the AST translated to an SMT regular expression; equivalence with the statement's glob semantics is one SMT query per star count. Rules.Allow/Rule.Allow against the exists-rule specification with Match uninterpreted.",
+         "QuoteMeta's contract (its result matches exactly its argument) and the regexp matcher's conformance to its AST are assumed; code-point strings (valid UTF-8), pieces <= 3, names <= 8/12 code points, <= 2/3 stars."),
+ "C08": ("The seven registered handlers (serveJSON instances, getIdentity) executed symbolically over a request/identity/database-outcome model: gates, identification before decoding, dispatch, outcome->status table, permissions and principal, no body in non-200 replies.",
+         "net/http, WhoIs, capability decoding and the database methods are nondeterministic stubs; real JSON syntax is the decoder's contract."),
+ "C10": ("NewStore executed symbolically with declared names (duplicates, empty), every kind of cache content, a failing/recovering service and an ending context: values for all declared names with provenance, no refetch, capped doubling back-off, prompt error after the context ends, file-client and misconfiguration cases.",
+         "2 (quick) / 3 names; at most 2/3 failing requests; real timers replaced by a recorded sleep list."),
+ "C11": ("One Refresh (poll + applyUpdates + flush) from an arbitrary store state against an arbitrary service state with per-request faults: convergence by version number, failed poll applies nothing, single-flight under a constant key, cache holds the post-state.",
+         "2/3 names; the +-10% ticker jitter arithmetic and real tickers are not part of this harness; interleavings within one poll are represented by the arbitrary service state."),
+ "C12": ("Invariant J and lock-set obligations over applyUpdates (arbitrary update set), handle reads, lookups and polls: handles never lose their name, values replaced never mutated, no request under the lock, lock released on every path.",
+         "Sequential + lock-discipline formulation; interleavings and the race detector are outside (single-mutex reduction is trusted reasoning)."),
+ "C13": ("Flush sites (initial fetch, poll, lookup, shutdown) hand Cache.Write the whole active set; restart from any cache document; arbitrary/unreadable cache never fatal; FileCache.Write = real atomicfile over the FS model with faults and kills; NewFileClient reads the same document with identical results.",
+         "encoding/json is a contract model; byte-level fuzzing of the decoder is outside."),
+ "C15": ("NewUpdater and bounded histories (4/6 events) of installs and Gets with failing builders and closers: newest bytes, rebuild only after an install, failure keeps the old value and sets Err, replaced value closed exactly once, current never closed; notify is a non-blocking level trigger.",
+         "Sequential histories; concurrent Get callers rest on Updater.mu (lock released asserted)."),
+ "C16": ("LookupSecret/Secret from an arbitrary store state (gate, single flight per name, install exactly the served value, no retry, cache flush) and a ghost-clock harness with a hanging service: leader bounded by its deadline or the 5-minute fallback, leads at most once, follower of a cancelled leader retries and is bounded.",
+         "singleflight is a leader/follower model with one earlier flight; more than one follower generation is outside."),
+ "C17": ("periodicBackup/doBackup executed symbolically over a ghost clock, a generation counter with writes at any point (also racing an upload), failing reads/uploads and cancellation at any wait: whole-file uploads, change-driven, at most one per minute, blocking wait between generation reads, retry after failure, termination on cancellation.",
+         "S3, the file read and timers are stubs; 2/4 loop rounds with an unwinding assertion; that an uploaded file is a complete database file follows from C04."),
+ "C19": ("hasExpired against the statement over all stamps/ages (ghost clock in mathematical integers), expiry only at a poll and only for stale, unreferenced, undeclared names, handle reads stamp last access, stamps persisted with the cache document.",
+         "time.Time arithmetic is a contract stub."),
+ "C20": ("Fields.Apply/Secrets and fieldInfo.apply on a hand-built field list ([]byte, string, Secret, custom unmarshaler): naming, per-type assignment, private copy for []byte, error isolation, untagged field untouched.",
+         "PARTIAL: tag parsing, type validation and run-time generated struct shapes (parseFields/checkUnmarshal over the reflect runtime) are outside the technique; reflect is a 7-operation model."),
  "C14": ("Lock-set obligations on the real code: every access to kv state under db.mu, exactly one critical section per method, released on every path (incl. injected failures), save under the lock; linearizability then follows from the single-lock reduction plus C02's sequential step.",
          "Trusted reasoning: single mutex + one critical section => atomic. The Go race detector and memory model are outside."),
 }
